@@ -67,6 +67,24 @@ func (p *parseVisitor) VisitValueAwareSource(c parser.IValueAwareSourceContext, 
 	return neededAccounts, nil
 }
 
+// hasSpecificOverdraft tells whether a source contains an `allowing overdraft up to M` clause
+func hasSpecificOverdraft(c parser.ISourceContext) bool {
+	switch c := c.(type) {
+	case *parser.SrcAccountContext:
+		_, ok := c.SourceAccount().GetOverdraft().(*parser.SrcAccountOverdraftSpecificContext)
+		return ok
+	case *parser.SrcMaxedContext:
+		return hasSpecificOverdraft(c.SourceMaxed().GetSrc())
+	case *parser.SrcInOrderContext:
+		for _, source := range c.SourceInOrder().GetSources() {
+			if hasSpecificOverdraft(source) {
+				return true
+			}
+		}
+	}
+	return false
+}
+
 func (p *parseVisitor) TakeFromSource(fallback *FallbackAccount) error {
 	if fallback == nil {
 		p.AppendInstruction(program.OP_TAKE)
